@@ -270,7 +270,6 @@ EXPORT wchar_t *_wcstok_s_chk(wchar_t *restrict dest, rsize_t *restrict dmaxp,
         if (unlikely(dlen == 0)) {
             *ptr = NULL;
             *dmaxp = 0;
-            *dest = L'\0';
             invoke_safe_str_constraint_handler("wcstok_s: dest is unterminated",
                                                (void *)orig_dest, ESUNTERM);
             errno = ESUNTERM;
@@ -283,6 +282,7 @@ EXPORT wchar_t *_wcstok_s_chk(wchar_t *restrict dest, rsize_t *restrict dmaxp,
          */
         slen = STRTOK_DELIM_MAX_LEN;
         pt = delim;
+        ptoken = dest; /* a token starts here unless *dest is a delimiter */
         while (*pt != L'\0') {
 
             if (unlikely(slen == 0)) {
@@ -313,6 +313,7 @@ EXPORT wchar_t *_wcstok_s_chk(wchar_t *restrict dest, rsize_t *restrict dmaxp,
      * need to continue the scan.
      */
     if (ptoken == NULL) {
+        *ptr = dest; /* continue (and stop) at the terminator */
         *dmaxp = dlen;
         return (ptoken);
     }
@@ -325,7 +326,6 @@ EXPORT wchar_t *_wcstok_s_chk(wchar_t *restrict dest, rsize_t *restrict dmaxp,
         if (unlikely(dlen == 0)) {
             *ptr = NULL;
             *dmaxp = 0;
-            *dest = L'\0';
             invoke_safe_str_constraint_handler("wcstok_s: dest is unterminated",
                                                (void *)orig_dest, ESUNTERM);
             errno = ESUNTERM;
@@ -367,6 +367,7 @@ EXPORT wchar_t *_wcstok_s_chk(wchar_t *restrict dest, rsize_t *restrict dmaxp,
         dlen--;
     }
 
+    *ptr = dest; /* the token ended at the terminator: nothing follows */
     *dmaxp = dlen;
     return (ptoken);
 }
